@@ -217,7 +217,7 @@ func (w *Wrapper) Copy() Resource {
 
 	// Attributes
 	for _, attr := range w.Attrs() {
-		nw.Set(attr.Name, w.Get(attr.Name))
+		nw.Set(attr.Name, copyVal(w.Get(attr.Name)))
 	}
 
 	// Relationships
@@ -225,7 +225,7 @@ func (w *Wrapper) Copy() Resource {
 		if rel.ToOne {
 			nw.Set(rel.FromName, w.Get(rel.FromName).(string))
 		} else {
-			nw.Set(rel.FromName, w.Get(rel.FromName).([]string))
+			nw.Set(rel.FromName, copyVal(w.Get(rel.FromName).([]string)))
 		}
 	}
 
